@@ -120,10 +120,43 @@ def atoms(s: S) -> frozenset:
     return s._atoms
 
 
-def cells_of(s: S, td_name: Optional[str] = None) -> set:
-    """Keys of initial TensorDict cells that a value depends on."""
+SHAPE_ATTRS = {"shape", "device", "dtype", "ndim", "batch_size", "is_cuda"}
+SHAPE_METHS = {"size", "dim", "numel", "new", "new_zeros", "new_ones", "new_full", "new_empty", "type"}
+LIKE_FUNCS = {"torch.zeros_like", "torch.ones_like", "torch.empty_like", "torch.full_like", "len"}
+
+
+def shape_only(n: S) -> bool:
+    """Nodes whose value does not depend on the *values* held by their tensor operand."""
+    if n.op == "attr" and n.args[1] in SHAPE_ATTRS:
+        return True
+    if n.op == "meth" and n.args[1] in SHAPE_METHS:
+        return True
+    if n.op == "call" and isinstance(n.args[0], S) and n.args[0].op in ("ext", "global") and n.args[0].args[0] in LIKE_FUNCS:
+        return True
+    return False
+
+
+_VATOMS: Dict[int, frozenset] = {}
+
+
+def value_atoms(s: S) -> frozenset:
+    """Atoms a value depends on through *values* (shape/dtype/device-only uses are ignored)."""
+    r = _VATOMS.get(s.id)
+    if r is None:
+        out = set()
+        for n in walk(s, stop=shape_only):
+            if n.op in ATOM_OPS and not shape_only(n):
+                out.add(n)
+        r = frozenset(out)
+        _VATOMS[s.id] = r
+    return r
+
+
+def cells_of(s: S, td_name: Optional[str] = None, shapes: bool = False) -> set:
+    """Keys of initial TensorDict cells that a value depends on (by value; with
+    `shapes=True` also through shape/device-only uses)."""
     out = set()
-    for a in atoms(s):
+    for a in (atoms(s) if shapes else value_atoms(s)):
         if a.op in ("cell0", "get0") and (td_name is None or a.args[0] == td_name):
             out.add(a.args[1])
         elif a.op == "cellany":
@@ -132,11 +165,11 @@ def cells_of(s: S, td_name: Optional[str] = None) -> set:
 
 
 def params_of(s: S) -> set:
-    return {a.args[0] for a in atoms(s) if a.op == "param"}
+    return {a.args[0] for a in value_atoms(s) if a.op == "param"}
 
 
 def selfattrs_of(s: S) -> set:
-    return {a.args[0] for a in atoms(s) if a.op == "selfattr"}
+    return {a.args[0] for a in value_atoms(s) if a.op == "selfattr"}
 
 
 def show(s, depth=6) -> str:
